@@ -60,134 +60,7 @@ def run(ctx):
     if kmax is None:
         raise AnalysisBroken('kMaxRecordSize has no constant value')
 
-    # ---- TB1: file-derived indices and sizes ----------------------------------------------------
-    R('C09.TB1', 'TB', 'in DepsLog::Load every value read from the file that is used as an index, an '
-      'allocation size or a read size is bounded on both sides by guards on every path to the use')
-    bufdecl = [e for e in load.events('decl') if e['n'] == 'buf']
-    bufsz = None
-    if bufdecl:
-        import re
-        m = re.search(r'\[(\d+)\]', bufdecl[0].get('ty', ''))
-        bufsz = int(m.group(1)) if m else None
-    ctx.check('C09.TB1', bufsz == kmax + 1, load.name, 'buf:size', load.loc,
-              'the read buffer holds kMaxRecordSize + 1 bytes (%s vs %s)' % (bufsz, kmax + 1))
-    n = 0
-    # (1) fread(buf, size, ...)
-    for e in load.calls('fread'):
-        a0 = strip(e['args'][0])
-        if isinstance(a0, dict) and a0.get('k') == 'var' and a0['n'] == 'buf':
-            lo, hi = bounds(load, e, e['args'][1])
-            n += 1
-            ctx.check('C09.TB1', hi <= (bufsz or 0), load.name, 'fread:size-unbounded:%s' % dstr(e['args'][1]), load.where(e),
-                      'fread into buf reads at most sizeof(buf) bytes (size in [%s, %s])' % (lo, hi))
-    # (2) subscripts of vectors with file-derived ids  /  (3) raw buffer subscripts
-    for e in load.events('call'):
-        if e.get('op') == '[]' and mentions_field(e.get('recv'), 'DepsLog::nodes_'):
-            idx = e['args'][0]
-            n += 1
-            si = strip(idx)
-            if isinstance(si, dict) and si.get('k') == 'idx':
-                # re-read of a buffer word validated by a preceding loop over the same range
-                key = dstr(si).replace('#2', '')
-                validated = [x for x in load.events('decl') if x.get('init') is not None and
-                             dstr(strip(x['init'])).replace('#2', '') == key and load.ev_reaches(x, e)]
-                wr = [x for x in load.calls('fread') if any(load.ev_reaches(v, x) and load.ev_reaches(x, e) and
-                                                            x['_b'] not in (61, ) for v in validated)]
-                ok = bool(validated)
-                vname = validated[0]['n'] if validated else None
-                # the validating loop checks both bounds of that variable
-                ok2 = False
-                if vname:
-                    for x in load.events('call'):
-                        if x.get('op') == '[]' and mentions_field(x.get('recv'), 'DepsLog::nodes_') and \
-                                mentions_var(x.get('args'), vname):
-                            lo, hi = bounds(load, x, x['args'][0])
-                            ok2 = lo >= 0 and upper_by_fact(load, x, x['args'][0], nodes_size)
-                # and a failed validation prevents reaching here
-                guard = fact_holds(load.facts_at(e), is_var('read_failed'), False)
-                ctx.check('C09.TB1', ok and ok2 and guard, load.name, 'nodes_[]:revalidation:%s' % key, load.where(e),
-                          'nodes_[%s] re-reads a word that a preceding loop validated (0 <= id < nodes_.size()) '
-                          'and is reached only when that validation did not fail' % key)
-                continue
-            lo, hi = bounds(load, e, idx)
-            up = upper_by_fact(load, e, idx, nodes_size)
-            ctx.check('C09.TB1', lo >= 0 and up, load.name, 'nodes_[]:unbounded:%s' % dstr(idx), load.where(e),
-                      'nodes_[%s]: lower bound %s >= 0 and guarded by < nodes_.size(): %s' % (dstr(idx), lo, up))
-    for e in load.events('idx'):
-        b = dstr(strip(e['b']))
-        i = e['i']
-        if b.split('#')[0] in ('deps_data', 'buf'):
-            n += 1
-            lo, hi = bounds(load, e, i)
-            if b.startswith('deps_data'):
-                # word index k is inside the record iff 4*(k+1) <= size; the pointer was advanced by adv words
-                adv = sum(const_value(x.get('r')) or 0 for x in load.events('asg')
-                          if is_var('deps_data')(x['l']) and x['op'] == '+=' and load.dominates_ev(x, e))
-                slo, shi = bounds(load, e, {'k': 'var', 'n': 'size', 'vk': 'local', 'tk': 'uint', 'ty': 'unsigned int'})
-                ci = const_value(i)
-                if ci is not None:
-                    ok = lo >= 0 and 4 * (ci + adv + 1) <= slo
-                    ctx.check('C09.TB1', ok, load.name, 'deps_data[]:beyond-record:%s' % dstr(i), load.where(e),
-                              'deps_data[%s] (after += %d) lies inside the record: size >= %s proven, need %d' % (
-                                  dstr(i), adv, slo, 4 * (ci + adv + 1)))
-                else:
-                    # loop index: bounded by deps_count, which is size/4 - adv
-                    ok_lo = lo >= 0
-                    ok_hi = upper_by_fact(load, e, i, lambda r: is_var('deps_count')(r))
-                    dc = load.single_def('deps_count')
-                    agree = dc is not None and dstr(strip(dc)).replace(' ', '') == '((size/4)-%d)' % adv
-                    ctx.check('C09.TB1', ok_lo and ok_hi and agree, load.name, 'deps_data[]:loop-index:%s' % dstr(i), load.where(e),
-                              'deps_data[%s]: 0 <= index < deps_count and deps_count == size/4 - (words skipped = %d): %s' % (
-                                  dstr(i), adv, dstr(dc)))
-            else:
-                ok = lo >= 0 and hi < (bufsz or 0)
-                ctx.check('C09.TB1', ok, load.name, 'buf[]:unbounded:%s' % dstr(i), load.where(e),
-                          'buf[%s] index in [%s, %s] within [0, %s)' % (dstr(i), lo, hi, bufsz))
-    # (4) allocation size and the count handed to the Deps constructor
-    for e in load.events('new'):
-        for a in e.get('args', [])[1:]:
-            n += 1
-            lo, hi = bounds(load, e, a)
-            ctx.check('C09.TB1', lo >= 0 and hi < INF, load.name, 'new:count-unbounded:%s' % dstr(a), load.where(e),
-                      'allocation count %s in [%s, %s] (non-negative, bounded)' % (dstr(a), lo, hi))
-    dctor = prog.fn('DepsLog::Deps::Deps')
-    for e in dctor.events('new'):
-        ctx.check('C09.TB1', 'size' in e and mentions_var(e['size'], 'node_count'), dctor.name, 'Deps:array-size', dctor.where(e),
-                  'Deps allocates node_count pointers')
-    # (5) UpdateDeps(out_id): index into deps_ (resize-if-needed gives the upper bound)
-    for e in load.calls('DepsLog::UpdateDeps'):
-        n += 1
-        lo, hi = bounds(load, e, e['args'][0])
-        up = upper_by_fact(load, e, e['args'][0], nodes_size)
-        ctx.check('C09.TB1', lo >= 0 and up, load.name, 'UpdateDeps:id-unbounded', load.where(e),
-                  'output id handed to UpdateDeps is in [0, nodes_.size()): lower %s, guarded %s' % (lo, up))
-    ud = prog.fn('DepsLog::UpdateDeps')
-    for e in ud.events('call'):
-        if e.get('op') == '[]' and mentions_field(e.get('recv'), 'DepsLog::deps_'):
-            dominated_by(ctx, 'C09.TB1', ud, e, lambda x: x['k'] == 'call' and lastname(x.get('name')) == 'resize' and
-                         mentions_field(x.get('recv'), 'DepsLog::deps_') or
-                         (x['k'] == 'call' and False), 'n/a', 'n/a') if False else None
-    rs = [e for e in ud.events('call') if lastname(e.get('name')) == 'resize' and mentions_field(e.get('recv'), 'DepsLog::deps_')]
-    ok = len(rs) == 1 and fact_holds(ud.facts_at(rs[0]), lambda a: 'out_id' in dstr(a) and 'DepsLog::deps_.size()' in dstr(a), False)
-    ctx.check('C09.TB1', ok, ud.name, 'UpdateDeps:resize-if-needed', ud.loc,
-              'UpdateDeps grows deps_ to out_id + 1 when out_id >= deps_.size() before subscripting')
-    # (6) checksum word and path length
-    for e in load.events('decl'):
-        if e['n'] == 'checksum':
-            slo, shi = bounds(load, e, {'k': 'var', 'n': 'size', 'vk': 'local', 'tk': 'uint', 'ty': 'unsigned int'})
-            plo, phi = bounds(load, e, {'k': 'var', 'n': 'path_size', 'vk': 'local', 'tk': 'int', 'ty': 'int'})
-            n += 1
-            # path_size = size - 4 > 0 (guard) => size >= 5; the word at buf + size - 4 is inside the record
-            psd = [x for x in load.events('decl') if x['n'] == 'path_size']
-            rel = bool(psd) and dstr(strip(psd[0].get('init'))).replace(' ', '') == '(size-4)'
-            pg = any(k.replace(' ', '') == '(0<path_size)' and p for k, (p, a) in load.facts_at(psd[0]).items()) if psd else False
-            reach = load.find_path(None, lambda x: x is e, from_succ=load.entry,
-                                   edge_ok=lambda b, i, s: not (load.edge_fact(b, i) and load.edge_fact(b, i)[0].replace(' ', '') == '(0<path_size)'
-                                                                and load.edge_fact(b, i)[1] is True), sensitive=False)
-            ctx.check('C09.TB1', rel and reach is None and 'size' in dstr(e.get('init')) and '- 4' in dstr(e.get('init')),
-                      load.name, 'checksum:word-outside-record', load.where(e),
-                      'the checksum word at buf + size - 4 is read only after path_size = size - 4 > 0 was established')
-    ctx.floor('C09.TB1', 12)
+    rule_tb1(ctx, 'C09.TB1')
 
     # ---- X1: clean EOF only at a record boundary -------------------------------------------
     R('C09.X1', 'X', 'a short read ends the load successfully without truncation only if nothing '
@@ -481,6 +354,142 @@ def run(ctx):
     ctx.check('C09.W1', len(rets) == 1 and 'Node::in_edge' in s and '"deps"' in s and 'empty()' in s, live.name, 'live:definition', live.loc,
               'an entry is live iff its node has a producer with a non-empty deps binding: %s' % s[:100])
     ctx.floor('C09.W1', 10)
+
+
+def rule_tb1(ctx, RID):
+    """TB1 (shared with C13): bounds of file-derived values in DepsLog::Load."""
+    prog = ctx.prog
+    R = ctx.rule
+    load = prog.fn('DepsLog::Load')
+    kmax = prog.global_('kMaxRecordSize').get('cv')
+    # ---- TB1: file-derived indices and sizes ----------------------------------------------------
+    R(RID, 'TB', 'in DepsLog::Load every value read from the file that is used as an index, an '
+      'allocation size or a read size is bounded on both sides by guards on every path to the use')
+    bufdecl = [e for e in load.events('decl') if e['n'] == 'buf']
+    bufsz = None
+    if bufdecl:
+        import re
+        m = re.search(r'\[(\d+)\]', bufdecl[0].get('ty', ''))
+        bufsz = int(m.group(1)) if m else None
+    ctx.check(RID, bufsz == kmax + 1, load.name, 'buf:size', load.loc,
+              'the read buffer holds kMaxRecordSize + 1 bytes (%s vs %s)' % (bufsz, kmax + 1))
+    n = 0
+    # (1) fread(buf, size, ...)
+    for e in load.calls('fread'):
+        a0 = strip(e['args'][0])
+        if isinstance(a0, dict) and a0.get('k') == 'var' and a0['n'] == 'buf':
+            lo, hi = bounds(load, e, e['args'][1])
+            n += 1
+            ctx.check(RID, hi <= (bufsz or 0), load.name, 'fread:size-unbounded:%s' % dstr(e['args'][1]), load.where(e),
+                      'fread into buf reads at most sizeof(buf) bytes (size in [%s, %s])' % (lo, hi))
+    # (2) subscripts of vectors with file-derived ids  /  (3) raw buffer subscripts
+    for e in load.events('call'):
+        if e.get('op') == '[]' and mentions_field(e.get('recv'), 'DepsLog::nodes_'):
+            idx = e['args'][0]
+            n += 1
+            si = strip(idx)
+            if isinstance(si, dict) and si.get('k') == 'idx':
+                # re-read of a buffer word validated by a preceding loop over the same range
+                key = dstr(si).replace('#2', '')
+                validated = [x for x in load.events('decl') if x.get('init') is not None and
+                             dstr(strip(x['init'])).replace('#2', '') == key and load.ev_reaches(x, e)]
+                wr = [x for x in load.calls('fread') if any(load.ev_reaches(v, x) and load.ev_reaches(x, e) and
+                                                            x['_b'] not in (61, ) for v in validated)]
+                ok = bool(validated)
+                vname = validated[0]['n'] if validated else None
+                # the validating loop checks both bounds of that variable
+                ok2 = False
+                if vname:
+                    for x in load.events('call'):
+                        if x.get('op') == '[]' and mentions_field(x.get('recv'), 'DepsLog::nodes_') and \
+                                mentions_var(x.get('args'), vname):
+                            lo, hi = bounds(load, x, x['args'][0])
+                            ok2 = lo >= 0 and upper_by_fact(load, x, x['args'][0], nodes_size)
+                # and a failed validation prevents reaching here
+                guard = fact_holds(load.facts_at(e), is_var('read_failed'), False)
+                ctx.check(RID, ok and ok2 and guard, load.name, 'nodes_[]:revalidation:%s' % key, load.where(e),
+                          'nodes_[%s] re-reads a word that a preceding loop validated (0 <= id < nodes_.size()) '
+                          'and is reached only when that validation did not fail' % key)
+                continue
+            lo, hi = bounds(load, e, idx)
+            up = upper_by_fact(load, e, idx, nodes_size)
+            ctx.check(RID, lo >= 0 and up, load.name, 'nodes_[]:unbounded:%s' % dstr(idx), load.where(e),
+                      'nodes_[%s]: lower bound %s >= 0 and guarded by < nodes_.size(): %s' % (dstr(idx), lo, up))
+    for e in load.events('idx'):
+        b = dstr(strip(e['b']))
+        i = e['i']
+        if b.split('#')[0] in ('deps_data', 'buf'):
+            n += 1
+            lo, hi = bounds(load, e, i)
+            if b.startswith('deps_data'):
+                # word index k is inside the record iff 4*(k+1) <= size; the pointer was advanced by adv words
+                adv = sum(const_value(x.get('r')) or 0 for x in load.events('asg')
+                          if is_var('deps_data')(x['l']) and x['op'] == '+=' and load.dominates_ev(x, e))
+                slo, shi = bounds(load, e, {'k': 'var', 'n': 'size', 'vk': 'local', 'tk': 'uint', 'ty': 'unsigned int'})
+                ci = const_value(i)
+                if ci is not None:
+                    ok = lo >= 0 and 4 * (ci + adv + 1) <= slo
+                    ctx.check(RID, ok, load.name, 'deps_data[]:beyond-record:%s' % dstr(i), load.where(e),
+                              'deps_data[%s] (after += %d) lies inside the record: size >= %s proven, need %d' % (
+                                  dstr(i), adv, slo, 4 * (ci + adv + 1)))
+                else:
+                    # loop index: bounded by deps_count, which is size/4 - adv
+                    ok_lo = lo >= 0
+                    ok_hi = upper_by_fact(load, e, i, lambda r: is_var('deps_count')(r))
+                    dc = load.single_def('deps_count')
+                    agree = dc is not None and dstr(strip(dc)).replace(' ', '') == '((size/4)-%d)' % adv
+                    ctx.check(RID, ok_lo and ok_hi and agree, load.name, 'deps_data[]:loop-index:%s' % dstr(i), load.where(e),
+                              'deps_data[%s]: 0 <= index < deps_count and deps_count == size/4 - (words skipped = %d): %s' % (
+                                  dstr(i), adv, dstr(dc)))
+            else:
+                ok = lo >= 0 and hi < (bufsz or 0)
+                ctx.check(RID, ok, load.name, 'buf[]:unbounded:%s' % dstr(i), load.where(e),
+                          'buf[%s] index in [%s, %s] within [0, %s)' % (dstr(i), lo, hi, bufsz))
+    # (4) allocation size and the count handed to the Deps constructor
+    for e in load.events('new'):
+        for a in e.get('args', [])[1:]:
+            n += 1
+            lo, hi = bounds(load, e, a)
+            ctx.check(RID, lo >= 0 and hi < INF, load.name, 'new:count-unbounded:%s' % dstr(a), load.where(e),
+                      'allocation count %s in [%s, %s] (non-negative, bounded)' % (dstr(a), lo, hi))
+    dctor = prog.fn('DepsLog::Deps::Deps')
+    for e in dctor.events('new'):
+        ctx.check(RID, 'size' in e and mentions_var(e['size'], 'node_count'), dctor.name, 'Deps:array-size', dctor.where(e),
+                  'Deps allocates node_count pointers')
+    # (5) UpdateDeps(out_id): index into deps_ (resize-if-needed gives the upper bound)
+    for e in load.calls('DepsLog::UpdateDeps'):
+        n += 1
+        lo, hi = bounds(load, e, e['args'][0])
+        up = upper_by_fact(load, e, e['args'][0], nodes_size)
+        ctx.check(RID, lo >= 0 and up, load.name, 'UpdateDeps:id-unbounded', load.where(e),
+                  'output id handed to UpdateDeps is in [0, nodes_.size()): lower %s, guarded %s' % (lo, up))
+    ud = prog.fn('DepsLog::UpdateDeps')
+    for e in ud.events('call'):
+        if e.get('op') == '[]' and mentions_field(e.get('recv'), 'DepsLog::deps_'):
+            dominated_by(ctx, RID, ud, e, lambda x: x['k'] == 'call' and lastname(x.get('name')) == 'resize' and
+                         mentions_field(x.get('recv'), 'DepsLog::deps_') or
+                         (x['k'] == 'call' and False), 'n/a', 'n/a') if False else None
+    rs = [e for e in ud.events('call') if lastname(e.get('name')) == 'resize' and mentions_field(e.get('recv'), 'DepsLog::deps_')]
+    ok = len(rs) == 1 and fact_holds(ud.facts_at(rs[0]), lambda a: 'out_id' in dstr(a) and 'DepsLog::deps_.size()' in dstr(a), False)
+    ctx.check(RID, ok, ud.name, 'UpdateDeps:resize-if-needed', ud.loc,
+              'UpdateDeps grows deps_ to out_id + 1 when out_id >= deps_.size() before subscripting')
+    # (6) checksum word and path length
+    for e in load.events('decl'):
+        if e['n'] == 'checksum':
+            slo, shi = bounds(load, e, {'k': 'var', 'n': 'size', 'vk': 'local', 'tk': 'uint', 'ty': 'unsigned int'})
+            plo, phi = bounds(load, e, {'k': 'var', 'n': 'path_size', 'vk': 'local', 'tk': 'int', 'ty': 'int'})
+            n += 1
+            # path_size = size - 4 > 0 (guard) => size >= 5; the word at buf + size - 4 is inside the record
+            psd = [x for x in load.events('decl') if x['n'] == 'path_size']
+            rel = bool(psd) and dstr(strip(psd[0].get('init'))).replace(' ', '') == '(size-4)'
+            pg = any(k.replace(' ', '') == '(0<path_size)' and p for k, (p, a) in load.facts_at(psd[0]).items()) if psd else False
+            reach = load.find_path(None, lambda x: x is e, from_succ=load.entry,
+                                   edge_ok=lambda b, i, s: not (load.edge_fact(b, i) and load.edge_fact(b, i)[0].replace(' ', '') == '(0<path_size)'
+                                                                and load.edge_fact(b, i)[1] is True), sensitive=False)
+            ctx.check(RID, rel and reach is None and 'size' in dstr(e.get('init')) and '- 4' in dstr(e.get('init')),
+                      load.name, 'checksum:word-outside-record', load.where(e),
+                      'the checksum word at buf + size - 4 is read only after path_size = size - 4 > 0 was established')
+    ctx.floor(RID, 12)
 
 
 def _const_inits(f):
